@@ -33,6 +33,7 @@ func (st *Struct) Caps() schema.Caps {
 	c.MapLists = true
 	c.Choices = st.useNode // struct-backed Reflect has no case detection
 	c.NoEnums = !st.useNode
+	c.ValueLists = !st.useNode
 	return c
 }
 
@@ -88,6 +89,9 @@ func (st *Struct) typeOf(s *schema.Node) reflect.Type {
 			f.Type = reflect.PtrTo(st.typeOf(c))
 		case schema.List:
 			et := reflect.PtrTo(st.typeOf(c))
+			if c.ValueList && !c.MapList {
+				et = st.typeOf(c)
+			}
 			if c.MapList {
 				kt := reflect.TypeOf("")
 				if c.Child(c.Keys[0]).Type == "int32" {
@@ -181,7 +185,11 @@ func (st *Struct) fill(ptr reflect.Value, t *model.Tree) error {
 						if err := st.fill(p, en); err != nil {
 							return err
 						}
-						sl = reflect.Append(sl, p)
+						if c.ValueList {
+							sl = reflect.Append(sl, p.Elem())
+						} else {
+							sl = reflect.Append(sl, p)
+						}
 					}
 					f.Set(sl)
 				}
@@ -261,7 +269,9 @@ func (st *Struct) walk(s *schema.Node, ptr reflect.Value) (*model.Tree, error) {
 			} else {
 				for i := 0; i < f.Len(); i++ {
 					ev := f.Index(i)
-					if ev.IsNil() {
+					if c.ValueList {
+						ev = ev.Addr()
+					} else if ev.IsNil() {
 						return nil, fmt.Errorf("list %s holds a nil entry at row %d", c.Name, i)
 					}
 					en, err := st.walk(c, ev)
